@@ -995,6 +995,9 @@ func (c *c09ctx) nonNil(st *pstate, b *Sym) bool {
 	if eq, ok := evalEq(st, b, nilSym()); ok && !eq {
 		return true
 	}
+	if fn, _ := calleeOfSym(b); isReflectMethod(fn, "MapRange") {
+		return true // MapRange returns a non-nil iterator
+	}
 	if b.K == sRes && b.Idx == 0 {
 		if fn, _ := calleeOfSym(b.A); fn != nil && fn.Pkg != nil && nonNilWhenErrNil[fn.Pkg.Pkg.Path()+"."+fn.Name()] {
 			if eq, ok := evalEq(st, &Sym{K: sRes, A: b.A, Idx: 1}, nilSym()); ok && eq {
